@@ -200,6 +200,42 @@ PROPS.update({
     },
 })
 
+PROPS.update({
+    "C11": {
+        "level_text": 'Bounded-exhaustive exploration: for every matrix of a stated menu (log-odds matrices M=2..6, thorough ..8, from 16 count rows x pseudocounts x 4 background/wildcard configurations; 15 hand matrices x 6 configurations) the exact score distribution is obtained by enumerating all K\'^M words, and ScoreDistribution is queried at every distinct attainable score, +-1 and +-1/2 discretisation step, far below/above, and at every attainable tail probability, midpoints, every tabulated sf value and fixed p; sf monotone in [0,1], pvalue within P(S>=s+d)..P(S>=s-d) (d = (M/2+1) steps), pvalue monotone, pvalue(score(p)) <= p. Structural clauses also for M in {12,16,20}.',
+        "level_note": 'Trusted: the 40-line brute-force oracle (f64, background normalised by its f32 total, 1e-6 absolute allowance on probabilities); the step is recovered from the public unscale(). Exploration, not model checking: the property quantifies over inputs only.',
+        "technique": 'bounded-exhaustive enumeration of matrices x backgrounds x score/p grids against a brute-force exact distribution',
+        "level": "exploration", "package": "vx-pval", "profiles": ["rel", "chk"],
+        "wall": {"quick": 150, "thorough": 3000},
+        "rule": "Product of matrix menu x background configurations x query grid; one evaluation = one (matrix, background, query) check of all clauses; indices of the product are distinct by construction.",
+        "assumptions": COMMON_ASSUMPTIONS + [
+            "DNA alphabet only; widths with K'^M <= 5^8 words for the oracle clauses",
+            "probabilities compared with 1e-6 absolute allowance because f32 backgrounds do not sum to exactly 1",
+        ],
+    },
+    "C12": {
+        "level_text": 'Bounded-exhaustive exploration: same matrix/background menu as C11; queries min-1, every distinct attainable score (at most 600 evenly ranked, 2400 thorough), each +1e-4, midpoints, max+1; EVERY refinement step of approximate_pvalue with g >= 1e-9 and the final pvalue() are compared with the brute-force tail using exactly the statement\'s margins (M+1)g / (M+2)g; panics (incl. assert!(converged)) and >40 refinement steps are violations.',
+        "level_note": 'Trusted: brute-force oracle; 1e-6 allowance on probabilities; for the final value only, the score margin has the floor 64 ulp(|s| + sum of row ranges). The statement bounds pmin only from below and pmax only from above, so single-key off-by-one mutations of the integer window are inside its slack (measured).',
+        "technique": 'bounded-exhaustive enumeration of matrices x backgrounds x scores x every refinement step against a brute-force exact distribution',
+        "level": "exploration", "package": "vx-pval", "profiles": ["rel", "chk"],
+        "wall": {"quick": 150, "thorough": 3000},
+        "rule": "Product of matrix menu x background configurations x score grid x refinement steps; one evaluation = one (matrix, background, score, step) inequality check; fresh TfmPvalue per query.",
+        "assumptions": COMMON_ASSUMPTIONS + [
+            "DNA alphabet; M <= 6 (quick) / 8 (thorough); refinement steps below g = 1e-9 are covered only through the final pvalue()",
+            "evenly ranked cap on attainable scores per matrix is a stated bound, reported in notes",
+        ],
+    },
+    "C13": {
+        "level_text": 'Bounded-exhaustive exploration: same menu; p = every attainable tail probability (ranked cap as C12), each x(1-1e-7) and x(1+1e-7), geometric midpoints, 1e-9, 1e-6, .5, .999; EVERY refinement step of approximate_score with g >= 1e-9 and the final score(): P(S>=t+d) <= p and P(S>=u-d) >= p for the largest attainable u < t-d, d = (M+2)g; panics and >40 steps are violations.',
+        "level_note": 'Trusted: brute-force oracle; 1e-6 allowance; floor 64 ulp on the final margin only.',
+        "technique": 'bounded-exhaustive enumeration of matrices x backgrounds x p-values x every refinement step against a brute-force exact distribution',
+        "level": "exploration", "package": "vx-pval", "profiles": ["rel", "chk"],
+        "wall": {"quick": 150, "thorough": 3000},
+        "rule": "Product of matrix menu x background configurations x p grid x refinement steps; one evaluation = one (matrix, background, p, step) check of both clauses.",
+        "assumptions": COMMON_ASSUMPTIONS + ["as C12"],
+    },
+})
+
 # properties not claimed (with reason); kept current as checks are added
 NOT_APPLICABLE = [
     {"property_id": p, "reason": "check not built yet in this round (planned in DESIGN.md section 2); not claimed until its harness exists"}
